@@ -154,6 +154,23 @@ def model_check(r, name, module, cfg, workers=4, timeout=1800, coverage=False, e
     return gen, dist
 
 
+def tlaps_check(r, module):
+    """Optional unbounded lemma discharged by the TLA+ proof system (tlapm). Its failure is a defect of the
+    machinery (exit 2), its absence (tool missing) only a note."""
+    if shutil.which("tlapm") is None:
+        r.notes.append("tlapm not installed: %s not re-proved" % module)
+        return
+    wd = os.path.join(r.dir, "tlaps-" + module.replace(".tla", ""))
+    os.makedirs(wd, exist_ok=True)
+    shutil.copy(os.path.join(SPEC, module), wd)
+    rc, out = run(["tlapm", "--threads", "4", module], cwd=wd, timeout=600)
+    m = re.search(r"All (\d+) obligations? proved", out)
+    if rc != 0 or not m:
+        raise Inconclusive("tlapm did not prove %s:\n%s" % (module, out[-1500:]))
+    r.extra.setdefault("tlaps", {})[module] = {"obligations": int(m.group(1)), "proved": int(m.group(1))}
+    shutil.rmtree(wd, ignore_errors=True)
+
+
 def validate_shard(r, idx, trace_file, module, cfg):
     wd = os.path.join(r.dir, "tv-%03d" % idx)
     report = os.path.join(wd, "report.json")
@@ -291,6 +308,9 @@ def lib_trace_check(r, mcs=(), module="LibTrace.tla", cfg="LibTrace.cfg", per_sh
     validated by TLC, rejections reproduced in a fresh process."""
     own = own or {r.prop}
     for name, mod, c, kw in mcs:
+        if c == "TLAPS":
+            tlaps_check(r, mod)
+            continue
         model_check(r, name, mod, c, **kw)
     binp = build_harness(r)
     g = gen_traces(r, binp, os.path.join(r.dir, "tr"), per_shard=per_shard)
